@@ -321,7 +321,9 @@ class Session:
             from wawk.parser import parse_wawk
             from wawk.ast_defs import AST
             from wal.util import wal_str
-            AST.find_variables.__defaults__[0].clear()      # one program per process in real use
+            d0 = (AST.find_variables.__defaults__ or (None,))[0]
+            if isinstance(d0, dict):
+                d0.clear()      # one program per process in real use (the default argument is shared between calls)
             try:
                 with contextlib.redirect_stdout(io.StringIO()):
                     parsed = parse_wawk(src)
